@@ -1,6 +1,8 @@
 package evaluator
 
 import (
+	"sort"
+
 	"github.com/Syuparn/pangaea/ast"
 	"github.com/Syuparn/pangaea/object"
 )
@@ -11,7 +13,11 @@ func evalKwargs(
 ) (*object.PanObj, *object.PanErr) {
 	pairMap := map[object.SymHash]object.Pair{}
 
-	for k, v := range kwargs {
+	// NOTE: kwargs are evaluated in order of source code
+	// (iteration order of Go map is random)
+	keys := sortedKwargKeys(kwargs)
+	for _, k := range keys {
+		v := kwargs[k]
 		val := Eval(v, env)
 
 		if err, ok := val.(*object.PanErr); ok {
@@ -31,4 +37,34 @@ func evalKwargs(
 	obj, _ := (object.PanObjInstancePtr(&pairMap)).(*object.PanObj)
 
 	return obj, nil
+}
+
+// sortedKwargKeys returns keys of kwargs in order of their positions in source code.
+func sortedKwargKeys(kwargs map[*ast.Ident]ast.Expr) []*ast.Ident {
+	keys := make([]*ast.Ident, 0, len(kwargs))
+	for k := range kwargs {
+		keys = append(keys, k)
+	}
+
+	sort.SliceStable(keys, func(i, j int) bool {
+		return kwargKeyBefore(keys[i], keys[j])
+	})
+
+	return keys
+}
+
+func kwargKeyBefore(k1, k2 *ast.Ident) bool {
+	if k1.Src == nil || k2.Src == nil {
+		// position is unknown: order by name to keep evaluation reproducible
+		return k1.Value < k2.Value
+	}
+
+	p1, p2 := k1.Src.Pos, k2.Src.Pos
+	if p1.Line != p2.Line {
+		return p1.Line < p2.Line
+	}
+	if p1.Column != p2.Column {
+		return p1.Column < p2.Column
+	}
+	return k1.Value < k2.Value
 }
